@@ -146,6 +146,8 @@ theorem basePrice_code_ne_zero (s : State) (t : TxIn) (c : Nat) (h : basePrice s
   unfold basePrice at h
   simp only at h
   split at h
+  · cases h; decide
+  split at h
   · cases h
   · split at h
     · cases h
